@@ -1,3 +1,36 @@
-From JT Require Import model.Check.
-Theorem C07_placeholder : True. Proof. exact I. Qed.
-Print Assumptions C07_placeholder.
+(* C07 -- on well-typed calls a decorated function is indistinguishable from the original.
+   Proved here: the name generation of the synthesised checking functions (model/Synth.v) can never clash,
+   whatever the parameters and the function are called; the event trace of a call (model/Config.v:
+   wrapper_trace) runs the body exactly once on a well-typed binding call, not at all on an ill-typed or
+   non-binding one.  Object identity, functools.wraps and descriptor plumbing are CPython's: validated by
+   the correspondence (harness/c07.py), not proved. *)
+From JT Require Import model.Synth model.Config proofs.SynthFacts.
+Open Scope string_scope.
+
+Theorem C07_gensym_fresh : forall names p, ~ In (gensym names p) names.
+Proof. exact gensym_fresh. Qed.
+Print Assumptions C07_gensym_fresh.
+
+Theorem C07_gensym_terminates_within_len_names : forall names p, exists i, gensym names p = cand p i /\ (i <= length names)%nat.
+Proof. exact gensym_is_candidate. Qed.
+Print Assumptions C07_gensym_terminates_within_len_names.
+
+Theorem C07_scope_injective : forall params n scope,
+  NoDup (generated (gen_names scope params n)) /\
+  forall g, In g (generated (gen_names scope params n)) -> ~ In g scope /\ ~ In g params.
+Proof. exact gen_names_fresh. Qed.
+Print Assumptions C07_scope_injective.
+
+Theorem C07_def_name_fresh : forall name params, ~ In (def_name false name params) params.
+Proof. exact def_name_fresh. Qed.
+Print Assumptions C07_def_name_fresh.
+
+(* the body runs exactly once on a well-typed binding call, never on an ill-typed or non-binding one *)
+Definition body_runs (tr : list event) : nat := length (filter (fun e => match e with EBody => true | _ => false end) tr).
+Theorem C07_body_once : forall c,
+  (binds c = true /\ params_ok c = true -> body_runs (wrapper_trace false false false c) = 1%nat) /\
+  (binds c = false \/ params_ok c = false -> body_runs (wrapper_trace false false false c) = 0%nat).
+Proof.
+  intros [b p h f]; destruct b, p, h, f; cbn; split; intros H; try reflexivity; try (destruct H; discriminate); destruct H as [H|H]; discriminate.
+Qed.
+Print Assumptions C07_body_once.
